@@ -265,3 +265,11 @@ impl Drop for CStmt {
         }
     }
 }
+
+impl CDb {
+    /// `ndb_close` while a transaction is open: must be refused and leave the handle valid.
+    pub fn try_close_while_busy(&self) -> bool {
+        let rc = c::ndb_close(self.ptr);
+        rc == c::NDB_ERR_BUSY
+    }
+}
